@@ -1,5 +1,6 @@
 """C13 — layer-2 responder: Model/Announcer.v + internal/layer2 harness on the real Announce."""
-import json, re
+import json, os, re, shutil
+import vlib
 
 CLOSURE = ["Model/Announcer.v", "Proofs/AnnouncerP.v", "Proofs/AnnouncerNdpP.v", "Proofs/AnnouncerTop.v"]
 COQ_FILES = ["Properties/C13.v", "Corr/Run_Announcer.v"]
@@ -7,10 +8,43 @@ PKG = "internal/layer2"
 FILES = ["zz_verif.go", "zz_verif_ann_test.go"]
 
 
+def sections(ctx, ok):
+    """the assumption of C13_rw_atomic, decided on lock facts regenerated from announcer.go"""
+    tooldir = os.path.join(vlib.VERIF, "tools", "lockfacts")
+    exe = os.path.join(ctx.work, "lockfacts")
+    rc, out, _ = vlib.sh(["go", "build", "-o", exe, "."], cwd=tooldir,
+                         env={"GOWORK": "off", "GOFLAGS": "-mod=mod", "GOPROXY": "off"}, timeout=300)
+    if rc != 0:
+        raise vlib.Broken("tools/lockfacts does not build: " + out[-1500:])
+    rc, out, _ = vlib.sh([exe, ctx.repo, os.path.join(ctx.work, "LockFacts.v")], timeout=120)
+    if rc != 0:
+        raise vlib.Broken("lockfacts failed: " + out[-1500:])
+    shutil.copy(os.path.join(tooldir, "AnnSections.v"), os.path.join(ctx.work, "AnnSections.v"))
+    if not ok:
+        return
+    ctx.obligations += 1
+    coqc = ["timeout", "300", "coqc", "-Q", vlib.COQ, "Verif", "-Q", ctx.work, "C13gen"]
+    rc, out, _ = vlib.sh(coqc + ["LockFacts.v"], cwd=ctx.work)
+    if rc != 0:
+        raise vlib.Broken("generated LockFacts.v does not compile: " + out[-1500:])
+    rc, out, _ = vlib.sh(coqc + ["AnnSections.v"], cwd=ctx.work)
+    ctx.checker_cmds.append("tools/lockfacts $REPO .work/C13/LockFacts.v && coqc .work/C13/AnnSections.v  (announcer methods are single critical sections)")
+    if rc != 0:
+        m = re.search(r'D_bad =\s*(.*?)\n\s+: ', out, re.S)
+        ctx.proof_broken = ("announcer_methods_are_critical_sections fails on the lock facts generated from %s/internal/layer2/announcer.go: "
+                            "not a single critical section of Announce.RWMutex: %s" % (ctx.repo, " ".join((m.group(1) if m else out[-600:]).split())))
+    elif "Closed under the global context" not in out:
+        raise vlib.Broken("AnnSections.v: not closed: " + out[-800:])
+    else:
+        ctx.discharged += 1
+        ctx.theorems.append("announcer_methods_are_critical_sections")
+
+
 def run(ctx):
     ok = ctx.coq_build(COQ_FILES)
     ctx.coq_theorems("Properties/C13.v", CLOSURE)
     thorough = ctx.tier == "thorough"
+    sections(ctx, ok)
     st = {}
     allcases = {"history": [], "concurrent": []}
 
@@ -74,7 +108,7 @@ def run(ctx):
             sequential(400, ctx.seed * 1000 + 7 + k, "s%d" % k)
             if ctx.violations:
                 return
-        concurrent(4, ctx.seed * 1000 + 3, "sc", race=True)
+        concurrent(6, ctx.seed * 1000 + 3, "sc", race=True)
 
     distinct = len({json.dumps(c["in"], sort_keys=True) for c in hist if
                     any(o["kind"] == "set" for o in c["in"]["ops"]) and any(o["kind"] == "del" for o in c["in"]["ops"])})
@@ -88,8 +122,9 @@ def run(ctx):
         "updateInterfaces (responders appearing/disappearing), the spam loop's timing and real sockets are outside the model",
         "the ARP responder is driven over an in-process net.PacketConn through mdlayher/arp's real parser; NDP responders (when an ICMPv6 socket "
         "on a link-local interface is available: %s) are driven for Watch/Unwatch only, ndpResponder.processRequest is not driven" % ndp,
-        "C13_rw_atomic assumes every announcer method is one critical section of Announce.RWMutex; that the methods take the lock is C20's "
-        "translated lock fact, the -race run of the thorough tier samples schedules",
+        "C13_rw_atomic assumes every announcer method is one critical section of Announce.RWMutex; decided on every run on lock facts regenerated from announcer.go "
+        "(announcer_methods_are_critical_sections, tools/lockfacts, syntactic); that a Go RWMutex gives atomicity is the interleaving semantics of Model/Lock.v (C20); "
+        "the -race run of the thorough tier samples schedules",
     ]
     ctx.assumptions += ["JoinGroup/LeaveGroup succeed; the set of responders is fixed during a history; NoDup of the NDP responder list (Go map keys)"]
     evaluations = len(hist) + len(conc)
